@@ -72,3 +72,44 @@ def run_macros(o, tier):
     if total < 100: return _res(o, detail='vacuity: only %d macro definitions attributed to /repo/include' % total, secs=round(time.time() - t0, 2))
     return _res(o, status='fail' if failed else 'pass', failed=failed, n_checks=total, secs=round(time.time() - t0, 2),
                 reach=[{'description': 'REACH! macros: %d definitions attributed' % total, 'reached': True}], cbmc_cmd='g++ -E -dD -DTROMPELOEIL_LONG_MACROS')
+
+
+def run_forms(o, tier):
+    """C19: each listed illegal expectation form is refused by the compiler with the documented message, each listed legal form
+    compiles (g++ -fsyntax-only against /repo/include).  A compile-time property of a form has no inputs: the answer for a listed
+    form is exact for the compiler and language level used."""
+    t0 = time.time()
+    import importlib, c19_forms
+    importlib.reload(c19_forms)
+    from concurrent.futures import ThreadPoolExecutor
+    stds = ['c++14'] + (['c++17'] if tier == 'thorough' else [])
+    wd = tempfile.mkdtemp(prefix='vp-forms-')
+    try:
+        jobs = [(std, kind, it) for std in stds for kind, lst in (('illegal', c19_forms.ILLEGAL), ('legal', c19_forms.LEGAL)) for it in lst]
+        def comp(job):
+            std, kind, it = job
+            src = os.path.join(wd, '%s_%s_%s.cpp' % (std.replace('+', 'p'), kind, it[0])); open(src, 'w').write(c19_forms.HEAD % it[1])
+            try:
+                r = subprocess.run(['g++', '-std=' + std, '-fsyntax-only', '-I' + os.path.join(vp.REPO, 'include'), src], capture_output=True, text=True, timeout=300)
+                return job, r.returncode, r.stderr
+            except subprocess.TimeoutExpired:
+                return job, None, 'timeout'
+        failed = []; n = 0
+        with ThreadPoolExecutor(max_workers=min(8, vp.JOBS)) as ex:
+            for (std, kind, it), rc, err in ex.map(comp, jobs):
+                n += 1
+                if rc is None: return _res(o, detail='compiler timeout on form %s' % it[0], secs=round(time.time() - t0, 2))
+                if kind == 'legal' and rc != 0:
+                    first = [l for l in err.split('\n') if 'error' in l][:1]
+                    failed.append({'property': 'forms.%s.legal.%s' % (std, it[0]), 'description': '[C19] FORM legal form is refused: %s  (%s)' % (it[1], (first[0] if first else '')[-160:]), 'loc': {}})
+                if kind == 'illegal' and rc == 0:
+                    failed.append({'property': 'forms.%s.illegal.%s' % (std, it[0]), 'description': '[C19] FORM misuse compiles: %s  (documented: %s)' % (it[1], it[2]), 'loc': {}})
+                if kind == 'illegal' and rc != 0 and it[2] not in err:
+                    failed.append({'property': 'forms.%s.message.%s' % (std, it[0]), 'description': '[C19] FORM misuse is refused without the documented message "%s": %s' % (it[2], it[1]), 'loc': {}})
+        if n < 30: return _res(o, detail='vacuity: only %d forms compiled' % n, secs=round(time.time() - t0, 2))
+        return _res(o, status='fail' if failed else 'pass', failed=failed, n_checks=n, secs=round(time.time() - t0, 2),
+                    reach=[{'description': 'REACH! forms: %d compiled' % n, 'reached': True}], cbmc_cmd='g++ -fsyntax-only (one translation unit per form)')
+    except Exception as e:
+        return _res(o, detail='tool error: %r' % e, secs=round(time.time() - t0, 2))
+    finally:
+        shutil.rmtree(wd, ignore_errors=True)
